@@ -22,13 +22,18 @@ static void bs_harness_init(void)
   size_t bs_w[BS_NG][BS_NG];
   for (size_t i = 0; i < BS_NG; i++)
     for (size_t j = 0; j < BS_NG; j++) {
-      BS_GEQ[i][j] = bs_e[i][j];
+      BS_GEQ[i][j] = (bs_e[i][j] ? 1 : 0);   /* normalised: a nondet _Bool byte may be 2 */
       BS_GEQ_W[i][j] = bs_w[i][j];
     }
   for (size_t i = 0; i < BS_NG; i++) {
     __CPROVER_assume(BS_GEQ[i][i]);
     for (size_t j = 0; j < BS_NG; j++) {
       __CPROVER_assume(BS_GEQ[i][j] == BS_GEQ[j][i]);
+      /* equal sequences have equal lengths; and a witness of difference otherwise (skolemised, quantifier-free) */
+      __CPROVER_assume(!BS_GEQ[i][j] || BS_GRIDMEM[i].n == BS_GRIDMEM[j].n);
+      __CPROVER_assume(BS_GEQ[i][j] || BS_GRIDMEM[i].n != BS_GRIDMEM[j].n ||
+                       (BS_GEQ_W[i][j] < BS_GRIDMEM[i].n && BS_GEQ_W[i][j] < BS_CAP &&
+                        BS_GRIDMEM[i].d[BS_GEQ_W[i][j]] != BS_GRIDMEM[j].d[BS_GEQ_W[i][j]]));
       for (size_t k = 0; k < BS_NG; k++)
         __CPROVER_assume(!(BS_GEQ[i][j] && BS_GEQ[j][k]) || BS_GEQ[i][k]);
     }
